@@ -143,6 +143,33 @@ impl Sys {
         s.alphabet = alphabet;
         s
     }
+
+    /// As `new_table`, with an RX1 data-rate offset negotiated first (RXParamSetupReq). RX1 may then be opened at a
+    /// rate far from the uplink's, or - where the regional table names a rate the stack does not implement - at the
+    /// RX2 rate; the frames are sized around every limit of the region, the reference takes the limit from the
+    /// window's own spreading factor and bandwidth.
+    pub fn new_table_off(cfg: &DevCfg, off: u8) -> Sys {
+        let mut s = Sys::new(cfg);
+        let (f2, dr2) = rr::rx2_default(&cfg.region);
+        let fb = crate::cmds::freq_bytes(f2);
+        let req = Frame::Down { fcnt: Fcnt::Rel(1), confirmed: false, ack: false, port: None, payload: vec![], fopts: vec![0x05, (off << 4) | dr2, fb[0], fb[1], fb[2]], tamper: Tamper::None };
+        s.core.apply(&Ev::Cycle { confirmed: false, port: 1, len: 1, rx1: Some(req), rx2: None });
+        let mut limits: Vec<usize> = (0..14u8).flat_map(|d| rr::max_payload(&cfg.region, d)).map(|m| m as usize).collect();
+        limits.sort();
+        limits.dedup();
+        let mut alphabet = vec![];
+        for w in [1, 2] {
+            for l in limits.iter().flat_map(|m| [*m, *m + 1]).chain([12usize]) {
+                if l + 5 > 255 || l < 9 {
+                    continue;
+                }
+                let f = Frame::Down { fcnt: Fcnt::Rel(1), confirmed: false, ack: false, port: Some(1), payload: payload(l - 8), fopts: vec![], tamper: Tamper::None };
+                alphabet.push(if w == 1 { Ev::Cycle { confirmed: false, port: 1, len: 1, rx1: Some(f), rx2: None } } else { Ev::Cycle { confirmed: false, port: 1, len: 1, rx1: None, rx2: Some(f) } });
+            }
+        }
+        s.alphabet = alphabet;
+        s
+    }
 }
 
 impl System for Sys {
@@ -569,6 +596,9 @@ pub fn run(tier: Tier, replay: Option<&str>) {
         if let Some(cc) = c["cfg"].get("size_table_cfg") {
             let cfg: DevCfg = serde_json::from_value(cc.clone()).expect("cfg");
             let hist: Vec<Ev> = serde_json::from_value(c["history"].clone()).expect("history");
+            if let Some(off) = c["cfg"].get("rx1_offset").and_then(|o| o.as_u64()) {
+                replay_exit("C05", path, explore::replay(&|| Sys::new_table_off(&cfg, off as u8), &hist));
+            }
             replay_exit("C05", path, explore::replay(&|| Sys::new_table(&cfg), &hist));
         }
         if let Some(cc) = c["cfg"].get("class_c_cfg") {
@@ -638,6 +668,18 @@ pub fn run(tier: Tier, replay: Option<&str>) {
             for (k, v) in st.outcomes {
                 *outcomes.entry(format!("table:{k}")).or_insert(0) += v;
             }
+            // the same uplink rate with every other RX1 data-rate offset the region admits
+            for off in 1..=rr::max_rx1_offset(region) {
+                let cj = json!({"size_table_cfg": serde_json::to_value(&cfg).unwrap(), "rx1_offset": off});
+                let st = explore::bfs(&ctx, &cj, &|| Sys::new_table_off(&cfg, off), 1, 100_000);
+                states += st.states;
+                transitions += st.transitions;
+                capped |= st.capped;
+                table_cfgs += 1;
+                for (k, v) in st.outcomes {
+                    *outcomes.entry(format!("table-off:{k}")).or_insert(0) += v;
+                }
+            }
         }
     }
     let sample_hist = vec![
@@ -654,7 +696,7 @@ pub fn run(tier: Tier, replay: Option<&str>) {
         ],
         "evaluations": ctx.evals(),
         "distinct_nontrivial": states,
-        "rule": "part (a): real next_fcnt_down (hook wrapper) for all 65536 wire values x every `last` in None + [b-W,b+W] around b in {0,0x10000,0x7FFFFFFF,0x80000000,0xFFFF0000,2^32-1} + a stride over the whole range, compared with the u64 specification rule; part (b): BFS over histories of whole uplink transactions on the real nb device, each delivering one frame of the alphabet (fresh +1/+2/+16384/+16385/+65536, same counter, older, replays of the last two accepted frames, forged MIC, other session, MIC under N+-65536, uplink-typed, port 0, at-limit and over-limit sizes) in RX1 or RX2, from sessions whose downlink counter starts at epoch boundaries (and whose uplink counter is far from / one step from / at exhaustion); part (c): the same on the async device in Class C (idle rxc_listen with one or two receptions, receptions while waiting for RX1 / RX2, followed by a Class A downlink); part (d): every region x every uplink data rate: frames whose MACPayload is exactly the regional limit of the RX1 / RX2 data rate (with and without FOpts) and one byte above it, histories of two transactions; states = distinct (device snapshot minus uplink/ADR counters, reference counter, last two accepted frames)",
+        "rule": "part (a): real next_fcnt_down (hook wrapper) for all 65536 wire values x every `last` in None + [b-W,b+W] around b in {0,0x10000,0x7FFFFFFF,0x80000000,0xFFFF0000,2^32-1} + a stride over the whole range, compared with the u64 specification rule; part (b): BFS over histories of whole uplink transactions on the real nb device, each delivering one frame of the alphabet (fresh +1/+2/+16384/+16385/+65536, same counter, older, replays of the last two accepted frames, forged MIC, other session, MIC under N+-65536, uplink-typed, port 0, at-limit and over-limit sizes) in RX1 or RX2, from sessions whose downlink counter starts at epoch boundaries (and whose uplink counter is far from / one step from / at exhaustion); part (c): the same on the async device in Class C (idle rxc_listen with one or two receptions, receptions while waiting for RX1 / RX2, followed by a Class A downlink); part (d): every region x every uplink data rate: frames whose MACPayload is exactly the regional limit of the RX1 / RX2 data rate (with and without FOpts) and one byte above it, histories of two transactions; with every other RX1 data-rate offset the region admits (negotiated first), frames at and one byte above every size limit of the region in RX1 and RX2, the limit taken from the window's own spreading factor and bandwidth; states = distinct (device snapshot minus uplink/ADR counters, reference counter, last two accepted frames)",
         "arith_last_values": n_last,
         "arith_pairs": n_last * 65536,
         "arith_accepting_pairs": arith_accepts,
@@ -684,6 +726,9 @@ pub fn run(tier: Tier, replay: Option<&str>) {
         if let Some(cc) = cj["cfg"].get("size_table_cfg") {
             let cfg: DevCfg = serde_json::from_value(cc.clone()).unwrap();
             let hist: Vec<Ev> = serde_json::from_value(cj["history"].clone()).unwrap();
+            if let Some(off) = cj["cfg"].get("rx1_offset").and_then(|o| o.as_u64()) {
+                return explore::replay(&|| Sys::new_table_off(&cfg, off as u8), &hist);
+            }
             return explore::replay(&|| Sys::new_table(&cfg), &hist);
         }
         let cfg: DevCfg = serde_json::from_value(cj["cfg"].clone()).unwrap();
